@@ -150,7 +150,8 @@ def selftest(seed=7):
         prev = None
         drop = None
         for i, e in enumerate(c['events']):
-            sig = [o['vid'] for o in e['obs']]     # new object or changed value
+            # new object or changed VALUE (a value id also changes when only ranks change: re-gauging is not state-changing here)
+            sig = [json.dumps(o['v']) if o['isint'] else o['vid'] for o in e['obs']]
             if e['op'] != 'New' and prev is not None and sig != prev and i < len(c['events']) - 1:
                 drop = i
                 break
